@@ -64,9 +64,33 @@ class CallGraph:
 
     # -------------------------------------------------------------- helpers
     def owner(self, fn: FuncInfo) -> FuncInfo:
-        """Nested functions/lambdas are analysed with their outermost function."""
+        """Nested functions/lambdas are analysed with their outermost function; so is a helper that the rules
+        have never seen (not in known_functions.txt) and that is reachable from exactly one known function
+        (a closure hoisted to module level, a recursive helper that could not be inlined)."""
         while fn.parent is not None:
             fn = fn.parent
+        from .inline import known_functions
+
+        known = known_functions()
+        if not known or fn.qualname in known:
+            return fn
+        seen = {fn.qualname}
+        frontier = [fn.qualname]
+        roots = set()
+        while frontier:
+            q = frontier.pop()
+            for caller, sites in self.sites.items():
+                if any(c.qualname == q for s_ in sites for c in s_.callees):
+                    top = self.repo.functions[caller]
+                    while top.parent is not None:
+                        top = top.parent
+                    if top.qualname in known:
+                        roots.add(top.qualname)
+                    elif top.qualname not in seen:
+                        seen.add(top.qualname)
+                        frontier.append(top.qualname)
+        if len(roots) == 1:
+            return self.repo.functions[roots.pop()]
         return fn
 
     def dispatch(self, cls: ClassInfo, name: str) -> List[FuncInfo]:
